@@ -15,6 +15,9 @@
    dump                               canonical state
    consts                             the generated constants
    seq <cap|-> <op_args;op_args;…>    run a whole history from a fresh endpoint: last reply | dump
+   enum <alphabet> <cap> <len> <prefix|->   every word of length <len> over the named alphabet that starts with
+                                      <prefix> (letters 0-9a-z), in lexicographic order, from a fresh endpoint:
+                                      adler32 of "last reply | dump" per word, space separated
 -/
 import Ipv8.Base.Proto
 import Ipv8.C07.Model
@@ -122,11 +125,92 @@ def runSeq (cap : Nat) (ops : List String) : String :=
       stepLine acc.1 ((Proto.splitChar o '_').filter (fun t => !t.isEmpty))) (init cap, "-")
   last ++ " | " ++ dump s
 
+/-! ### exhaustive enumeration over fixed alphabets (same letters as harness/c07.py `alphabet`) -/
+
+def pfxOf (base : Nat) : Bytes := [0, 2] ++ (List.range 20).map (fun i => UInt8.ofNat (base + i))
+def PA : Bytes := pfxOf 0xA0
+def PB : Bytes := pfxOf 0xB0
+
+def lastIdx (s : State) : Nat := s.comm.circuits.length - 1
+
+/-- letter `l` of alphabet `alpha` at position `i` of a word, in state `s` -/
+def letterOp (alpha : String) (l i : Nat) (s : State) : Option Op :=
+  if alpha == "A" then
+    match l with
+    | 0 => some (.send 1 (PA ++ [UInt8.ofNat i]))
+    | 1 => some (.send 2 (PB ++ [UInt8.ofNat i]))
+    | 2 => some (.setAnonymity PA true)
+    | 3 => some (.setAnonymity PA false)
+    | 4 => some (.setTunnelCommunity true 1)
+    | 5 => some (.setTunnelCommunity false 1)
+    | 6 => some (.addHop (lastIdx s) { addr := 7, flags := [4] })
+    | 7 => some (.close 0)
+    | 8 => some (.remove 0)
+    | 9 => some (.addHop (lastIdx s) { addr := 8, flags := [2] })
+    | _ => none
+  else if alpha == "B" then
+    match l with
+    | 0 => some (.send 1 (PA ++ [UInt8.ofNat i]))
+    | 1 => some (.setAnonymity PA true)
+    | 2 => some (.setTunnelCommunity true 2)
+    | 3 => some (.setTunnelCommunity true 1)
+    | 4 => some (.setTunnelCommunity false 1)
+    | 5 => some (.addHop 0 { addr := 7, flags := [1, 4] })
+    | 6 => some (.addHop (lastIdx s) { addr := 8, flags := [4] })
+    | 7 => some (.addHop (lastIdx s) { addr := 9, flags := [1] })
+    | 8 => some (.close (lastIdx s))
+    | 9 => some (.remove 0)
+    | 10 => some (.setCanCreate false)
+    | 11 => some (.setAnonymity PA false)
+    | _ => none
+  else none
+
+def adler32 (s : String) : Nat :=
+  let r := s.foldl (fun (ab : Nat × Nat) c =>
+    let a := (ab.1 + c.toNat) % 65521
+    (a, (ab.2 + a) % 65521)) (1, 0)
+  r.2 * 65536 + r.1
+
+def digitVal? (c : Char) : Option Nat :=
+  if '0' ≤ c ∧ c ≤ '9' then some (c.toNat - 48)
+  else if 'a' ≤ c ∧ c ≤ 'z' then some (c.toNat - 87)
+  else none
+
+/-- all words of `remaining` more letters (letters `0 … k-1`), depth first in lexicographic order -/
+def enumGo (alpha : String) (k : Nat) (s : State) (last : String) (pos : Nat) :
+    Nat → Array String → Array String
+  | 0, acc => acc.push (toString (adler32 (last ++ " | " ++ dump s)))
+  | r + 1, acc =>
+    (List.range k).foldl (fun acc l =>
+      match letterOp alpha l pos s with
+      | some op =>
+        let (s', evs) := step s op
+        enumGo alpha k s' (showEvents evs s') (pos + 1) r acc
+      | none => acc.push "bad-letter") acc
+
+def enumCmd (alpha : String) (k cap len : Nat) (pre : List Nat) : String :=
+  -- run the prefix
+  let (s, last, pos, ok) := pre.foldl (fun (acc : State × String × Nat × Bool) l =>
+      let (s, last, pos, ok) := acc
+      match letterOp alpha l pos s with
+      | some op => let (s', evs) := step s op; (s', showEvents evs s', pos + 1, ok)
+      | none => (s, last, pos + 1, false)) (init cap, "-", 0, true)
+  if !ok || len < pre.length then "bad-op"
+  else " ".intercalate (enumGo alpha k s last pos (len - pre.length) #[]).toList
+
+def alphaSize (alpha : String) : Nat := if alpha == "A" then 10 else if alpha == "B" then 12 else 0
+
 def top (s : State) (toks : List String) : State × String :=
   match toks with
   | ["seq", c, ops] => match capOf? c with
     | some cap => (s, runSeq cap (Proto.splitChar ops ';'))
     | none => (s, "bad-op")
+  | ["enum", alpha, k, c, len, pre] =>
+    let preDigits : Option (List Nat) := if pre == "-" then some [] else pre.toList.mapM digitVal?
+    match k.toNat?, capOf? c, len.toNat?, preDigits with
+    | some k, some cap, some len, some pre =>
+      if k ≤ alphaSize alpha then (s, enumCmd alpha k cap len pre) else (s, "bad-op")
+    | _, _, _, _ => (s, "bad-op")
   | _ => stepLine s toks
 
 def main : IO Unit := Proto.run (init queueCap) top
